@@ -25,7 +25,7 @@
      missing / extra entries and shared blobs); the executable form of the statement is evaluated
      by the check on every generated case, on the model and on the real code. *)
 From Verif.Base Require Import Tactics.
-From Verif.C14 Require Import Model Extracted Witness Proofs Proofs2 Proofs3 Exact1 Exact2 Exact3 Exact4 Exact5 Exact6.
+From Verif.C14 Require Import Model Extracted Witness Proofs Proofs2 Proofs3 Exact1 Exact2 Exact3 Exact4 Exact5 Exact6 Exact7.
 Local Open Scope N_scope.
 
 (* No path outside the destination — nor the destination root itself — is created, modified or
@@ -194,3 +194,23 @@ Example restore_exact_fresh_dest_hyps :
   stream code_cfg snapY = map toO nodesY /\ nodes_ok nodesY /\ dirs_ok droot0 worldY /\
   (forall x, In x nodesY -> fs_get worldY (Pn droot0 x) = None).
 Proof. exact exampleY_hyps. Qed.
+
+(* Pre-existing file of the snapshot's size (the case verify_existing / size+mtime differing sends
+   into the per-blob comparison), per file: (1) the plan is exactly the insertion of the file's
+   locations `file_locs` (the reader of add_file's loop); (2) location k is blob k at the blob's
+   offset, flagged `matches` iff the existing bytes there are the blob (hash = equality);
+   (3) writing the unflagged blobs over the existing bytes (no hole: the file existed) yields the
+   concatenation of the blobs.  PARTIAL: in file order, one file; see NOTES.md gap G1'. *)
+Theorem restore_exact_existing_file_partial : forall idx bl d0 r,
+  length d0 = blen bl ->
+  plan_blobs idx (Some d0) 0%N bl r =
+    (fold_left (fun r x => r_insert r (bkey (fst x)) (b_data (fst x)) (snd x)) (file_locs idx (Some d0) 0%N bl) r,
+     N.of_nat (blen bl)) /\
+  (forall k b fl, nth_error (file_locs idx (Some d0) 0%N bl) k = Some (b, fl) ->
+     nth_error bl k = Some b /\ fl_idx fl = idx /\ fl_start fl = N.of_nat (blen (firstn k bl)) /\
+     (fl_matches fl = true <-> firstn (dlen b) (skipn (blen (firstn k bl)) d0) = b_data b)) /\
+  fold_left apply_loc (file_locs idx (Some d0) 0%N bl) d0 = econt bl.
+Proof. exact existing_file_exact. Qed.
+Print Assumptions restore_exact_existing_file_partial.
+Example existing_file_hyps : length [1%N; 2%N; 9%N; 9%N] = blen [kA; kB].
+Proof. reflexivity. Qed.
